@@ -391,7 +391,7 @@ def _sac_targets(S, ne, ns):
     k2, _ = kit.key_input("key")
     with extract.patched((SAC, "per_iteration", counting), (SAC, "sac_train", train_stub), (AbstractOffPolicyAlgorithm, "collect_rollout", collect_stub)):
         out2 = run(ctx2, lambda a, s, kk: a.iteration(s, key=kk, callback=SimpleCallback()), algo, st2, k2)
-    S.fact("SAC.iteration/soft-update-exactly-once" + T_, calls["n"] == 1, function="lerax.algorithm.sac:SAC.iteration", what="per_iteration (the soft target update) is applied exactly once per iteration", detail=calls["n"])
+    S.fact("SAC.iteration/soft-update-exactly-once" + T_, calls["n"] == 1, shape=False, function="lerax.algorithm.sac:SAC.iteration", what="per_iteration (the soft target update) is applied exactly once per iteration", detail=calls["n"])
     S.prove("SAC.iteration/counter-advances-by-one" + T_, ctx2, ir.seq(out2.iteration_count.scalar(), st2.iteration_count.scalar() + 1), function="lerax.algorithm.sac:SAC.iteration", what="the iteration counter advances by exactly one")
     conj2 = []
     for new, on, old in ((out2.qf1_target, st2.qf1, st2.qf1_target), (out2.qf2_target, st2.qf2, st2.qf2_target)):
